@@ -245,7 +245,7 @@ def prop(case):
 
 
 def known(case, violation):
-    """C01-F14: Colang 2.x, a user text with a backslash sequence that is not a valid escape of a Python literal
+    """C01-F14 (found by this check, fixed in /repo since; the classifier only matters if it is listed as open again): Colang 2.x, a user text with a backslash sequence that is not a valid escape of a Python literal
     (backslash-u, backslash-x, a trailing backslash ...) raises in `_log_action_or_intents` when `user said ...`
     finishes; the exception escapes run_to_completion, the turn gets no reply and every later turn is dead: no input
     rail runs any more."""
